@@ -119,3 +119,12 @@ func seq(lo, hi int) []int {
 
 // isF32 reports whether t is a 32-bit floating type (float32 or a named type over it).
 func isF32(t int) bool { return dyn.Types[t].Kind == dyn.Float && dyn.Types[t].Bits == 32 }
+
+func init() {
+	core.ExtraNote = func() string {
+		if n, ok := dyn.LibraryPanic.Load().(string); ok {
+			return n
+		}
+		return ""
+	}
+}
